@@ -95,12 +95,14 @@ def hexsha_of(repo_name, intid):
 class FakeCommit:
     __slots__ = ("intid", "hexsha", "parents", "message", "committed_date", "author", "tree")
 
-    def __init__(self, repo_name, intid, message, files):
+    def __init__(self, repo_name, intid, message, files, date_rank=None):
         self.intid = intid
         self.hexsha = hexsha_of(repo_name, intid)
         self.parents = []
         self.message = message
-        self.committed_date = BASE_TIME + 10 * intid
+        # default: 10 s steps in id (= topological) order; with an explicit rank: 10-minute steps in rank order,
+        # which lets commit times run against the history (clock skew, rebases) - still far inside the windows
+        self.committed_date = BASE_TIME + (10 * intid if date_rank is None else 600 * date_rank)
         self.author = FakeAuthor(_AUTHORS[intid % len(_AUTHORS)])
         self.tree = FakeTree(files)
 
@@ -124,7 +126,7 @@ class FakeRemote:
 
 class FakeRepo:
     """spec = {"name": str,
-               "commits": [[intid, [parent ids], message, [tags], {path: text}], ...]  (any order),
+               "commits": [[intid, [parent ids], message, [tags], {path: text}(, date rank)], ...]  (any order),
                "branches": [[branch_name, head_intid], ...]}      branch_name e.g. "release/1.0", "master"
     """
 
@@ -133,10 +135,10 @@ class FakeRepo:
         self.git_dir = f"/nonexistent/fake-git/{self.name}"
         self.commits = {}
         self.refs = {}                 # full ref name -> hexsha (insertion ordered)
-        for intid, _parents, message, _tags, files in spec["commits"]:
+        for intid, _parents, message, _tags, files, *rank in spec["commits"]:
             assert intid not in self.commits
-            self.commits[intid] = FakeCommit(self.name, intid, message, files or {})
-        for intid, parents, _m, tags, _f in spec["commits"]:
+            self.commits[intid] = FakeCommit(self.name, intid, message, files or {}, rank[0] if rank else None)
+        for intid, parents, _m, tags, _f, *_rank in spec["commits"]:
             c = self.commits[intid]
             c.parents = [self.commits[p] for p in parents]
             for tag in tags or ():
@@ -224,11 +226,14 @@ def c06_tag(i):
 
 
 def c06_repo_spec(case, name="comp_1"):
-    """case = {"parents": [[...] per commit 1..n], "heads": [[branch, id], ...], "tags": [ids], "match": [ids]}"""
+    """case = {"parents": [[...] per commit 1..n], "heads": [[branch, id], ...], "tags": [ids], "match": [ids],
+               "dates": [rank of the commit time per commit] (optional; default: increasing with the id)}"""
     tags, match = set(case["tags"]), set(case["match"])
+    dates = case.get("dates")
     commits = []
     for i, ps in enumerate(case["parents"], start=1):
-        commits.append([i, list(ps), c06_message(i, i in match), [c06_tag(i)] if i in tags else [], {}])
+        commits.append([i, list(ps), c06_message(i, i in match), [c06_tag(i)] if i in tags else [], {}]
+                       + ([dates[i - 1]] if dates else []))
     return {"name": name, "commits": commits, "branches": [list(b) for b in case["heads"]]}
 
 
@@ -354,7 +359,7 @@ def printed_label(kind, label):
     return label
 
 
-def c06_judge(parents, heads, tags, match, observed, expected=None):
+def c06_judge(parents, heads, tags, match, observed, expected=None, label_of=None):
     """Compare an observed report structure (observe_rgraph) with the reference.
     -> list of (signature_suffix, message, observed_detail, expected_detail); empty = property holds here."""
     exp = expected if expected is not None else c06_expected(parents, heads, tags, match)
@@ -409,7 +414,10 @@ def c06_judge(parents, heads, tags, match, observed, expected=None):
                                  f"{name}: commits {printable} are listed under commit {cid}, which is not a build of "
                                  f"this branch (builds: {e['builds']})", [cid, printable], e["builds"]))
                 continue
-            want_label = tag_label(c06_tag(cid)) if cid in tags else NOT_BUILT
+            if label_of is not None:
+                want_label = label_of(cid) if cid in tags else NOT_BUILT
+            else:
+                want_label = tag_label(c06_tag(cid)) if cid in tags else NOT_BUILT
             if label != want_label:
                 problems.append(("build-label", f"{name}: build at commit {cid} is shown as {label}",
                                  label, want_label))
@@ -544,20 +552,54 @@ def subsets(items):
 # =====================================================================================
 # 3. C07 reference
 # =====================================================================================
-def c07_version(comp, c):
-    """Version string of the component build made from component commit c."""
-    return f"{comp['major'][str(c)] if isinstance(comp['major'], dict) else comp['major']}.0.{c}"
+def pin_commit(pin):
+    """A pin is a component commit id c (its first = smallest build tag) or [c, 1] (its second build tag)."""
+    return pin[0] if isinstance(pin, (list, tuple)) else pin
+
+
+def pin_rank(pin):
+    return pin[1] if isinstance(pin, (list, tuple)) else 0
+
+
+def c07_version(comp, pin):
+    """Version string of a component build: commit c carries build number 2c, and 2c+1 when it was built twice."""
+    c = pin_commit(pin)
+    maj = comp["major"][str(c)] if isinstance(comp["major"], dict) else comp["major"]
+    return f"{maj}.0.{2 * c + pin_rank(pin)}"
+
+
+def c07_versions(comp):
+    """All existing component builds as pins, in (commit, tag) order."""
+    two = set(comp.get("tags2", ()))
+    out = []
+    for c in sorted(comp["tags"]):
+        out.append(c)
+        if c in two:
+            out.append([c, 1])
+    return out
 
 
 def c07_comp_spec(comp, name="lib"):
-    """comp = {"parents": [...], "heads": [[branch, id]...], "tags": [ids], "match": [ids], "major": {str(id): int} | int}"""
-    tags, match = set(comp["tags"]), set(comp["match"])
+    """comp = {"parents": [...], "heads": [[branch, id]...], "tags": [ids], "tags2": [ids built twice] (optional),
+               "match": [ids], "major": {str(id): int} | int}"""
+    tags, match, two = set(comp["tags"]), set(comp["match"]), set(comp.get("tags2", ()))
+    assert two <= tags
     commits = []
     for i, ps in enumerate(comp["parents"], start=1):
         maj = comp["major"][str(i)] if isinstance(comp["major"], dict) else comp["major"]
-        commits.append([i, list(ps), c06_message(i, i in match),
-                        [tag_name(i, maj, 0)] if i in tags else [], {}])
+        tg = []
+        if i in tags:
+            tg.append(tag_name(2 * i, maj, 0))
+            if i in two:
+                tg.append(tag_name(2 * i + 1, maj, 0))
+        commits.append([i, list(ps), c06_message(i, i in match), tg, {}])
     return {"name": name, "commits": commits, "branches": [list(b) for b in comp["heads"]]}
+
+
+def matching_for_text(n, match, text):
+    """Commits 1..n whose message (as generated from the SEARCH_TEXT matching set ``match``) contains ``text``."""
+    match = set(match)
+    return [i for i in range(1, n + 1) if text in c06_message(i, i in match)]
 
 
 def c07_parent_tag_label(c):
@@ -597,6 +639,7 @@ def c07_expected(comp, par, comp_builds, comp_exp):
     rc = reach_masks(comp["parents"])
     rp = reach_masks(par["parents"])
     comp_tags = set(comp["tags"])
+    comp_tags2 = set(comp.get("tags2", ()))
     ptags = set(par["tags"])
     # component commit -> branch whose fresh region holds it
     comp_branch_of = {}
@@ -614,11 +657,14 @@ def c07_expected(comp, par, comp_builds, comp_exp):
             for strict in (True, False):
                 def ships(b):
                     pin = par["pins"][b - 1]
-                    if isinstance(pin, str) or pin not in comp_tags:
+                    if isinstance(pin, str):
                         return False        # names no existing component build
-                    if not (rc[pin] >> cb) & 1:
+                    pc = pin_commit(pin)
+                    if pc not in comp_tags or (pin_rank(pin) and pc not in comp_tags2):
                         return False
-                    return (comp_branch_of.get(pin) == cbranch) or not strict
+                    if not (rc[pc] >> cb) & 1:
+                        return False
+                    return (comp_branch_of.get(pc) == cbranch) or not strict
                 s = [b for b in cands if ships(b)]
                 first = [b for b in s if not any(b2 != b and (rp[b] >> b2) & 1 for b2 in s)]
                 for b in first:
@@ -629,17 +675,26 @@ def c07_expected(comp, par, comp_builds, comp_exp):
     return required, optional
 
 
+def pin_le(a, b, comp_reach):
+    """Version a is not newer than version b: a's commit is contained in b's, and on one commit the build
+    number does not go down."""
+    ca, cb = pin_commit(a), pin_commit(b)
+    if ca == cb:
+        return pin_rank(a) <= pin_rank(b)
+    return bool((comp_reach[cb] >> ca) & 1)
+
+
 def pins_monotone(par_parents, pins, comp_reach):
     """The pinned component build never decreases along a path (order = reachability in the component)."""
     for i, ps in enumerate(par_parents, start=1):
         for p in ps:
-            if not (comp_reach[pins[i - 1]] >> pins[p - 1]) & 1:
+            if not pin_le(pins[p - 1], pins[i - 1], comp_reach):
                 return False
     return True
 
 
 def enumerate_pins(par_parents, versions, comp_reach):
-    """All assignments commit -> component build (ids in ``versions``) that never decrease along an edge."""
+    """All assignments commit -> component build (pins in ``versions``) that never decrease along an edge."""
     n = len(par_parents)
     pins = [None] * n
 
@@ -648,7 +703,7 @@ def enumerate_pins(par_parents, versions, comp_reach):
             yield list(pins)
             return
         for v in versions:
-            if all((comp_reach[v] >> pins[p - 1]) & 1 for p in par_parents[i]):
+            if all(pin_le(pins[p - 1], v, comp_reach) for p in par_parents[i]):
                 pins[i] = v
                 yield from rec(i + 1)
         pins[i] = None
@@ -687,11 +742,15 @@ def run_single_repo(spec, text=SEARCH_TEXT, repo_id="comp_1", printed=True):
     return observe_rgraph(rgraph), (str(report) if printed else None), fake
 
 
-def run_two_repos(comp_spec, par_spec, text=SEARCH_TEXT, order=("app", "lib")):
+def two_repo_collection(comp_spec, par_spec, order=("app", "lib")):
     lib = ModelProjectRepo("lib", FakeRepo(comp_spec), "origin")
     app = ParentProjectRepo("app", FakeRepo(par_spec), "origin")
     repos = {"app": app, "lib": lib}
-    coll = ghist.ReposCollection({k: repos[k] for k in order})
+    return ghist.ReposCollection({k: repos[k] for k in order})
+
+
+def run_two_repos(comp_spec, par_spec, text=SEARCH_TEXT, order=("app", "lib")):
+    coll = two_repo_collection(comp_spec, par_spec, order)
     report = coll.make_report(text)
     return coll, report
 
